@@ -70,7 +70,9 @@ theorem execOp_ok_noError (σ : DbModel) (db : Database) (tx : Txn) (op : Operat
     · split at h
       · cases h
       · split at h
-        · cases h; rfl
+        · split at h
+          · cases h
+          · cases h; rfl
         · cases h
   · split at h
     · split at h
